@@ -199,3 +199,34 @@ func VerifC18EncoderReuse() {
 	}
 	verifCover("C18/encoder/end")
 }
+
+// c18ConcurrentExprs: expressions for the concurrency clause — the sequential alphabet plus operators whose lexer
+// rules or handlers keep state of their own (environment substitution options, formats with configured preferences).
+var c18ConcurrentExprs = append(append([]string{}, c18Exprs...), "envsubst", "envsubst(ne)", "envsubst(nu, ff)", "to_yaml", "to_xml", "@base64", "from_yaml", "to_props", "with_entries(.value |= . + 1)",
+	".[] |= select(. > 0)", "... style=\"\"", "sort_by(.) | reverse", "to_entries | from_entries", "tostring", "split(\",\")", "test(\"1\")", "sub(\"1\", \"2\")", "@sh", "@csv", "to_number", "upcase", "kind", "type", "line", "column")
+
+// VerifC18NoSharedWrites — the concurrency half of C18, decided by a sufficient condition over the real code: an
+// evaluation (parse the expression with the shared parser, build a document, evaluate, print through an own printer
+// and encoder) performs NO store into state that existed before it started. Evaluations on separate evaluators and
+// documents share nothing else, so without such a store they cannot race, whatever the schedule. A store that is
+// found is confirmed natively by running the same evaluation in two goroutines under the Go race detector.
+func VerifC18NoSharedWrites() {
+	InitExpressionParser()
+	i := verifChoice("expr", len(c18ConcurrentExprs))
+	a, b := []string{"1", "2"}[verifChoice("a", 2)], []string{"0", "3"}[verifChoice("b", 2)]
+	expr := c18ConcurrentExprs[i]
+	verifShared(func() {
+		tree, err := ExpressionParser.ParseExpression(expr)
+		if err != nil || strings.HasPrefix(expr, "envsubst") {
+			return // envsubst is parsed only: its evaluation is in a third-party package the engine does not execute
+		}
+		res, err := vEval(tree, c18Doc(a, b))
+		if err != nil {
+			return
+		}
+		var sb strings.Builder
+		printer := NewPrinter(NewYamlEncoder(NewDefaultYamlPreferences()), NewSinglePrinterWriter(bufio.NewWriter(vSBWriter{&sb})))
+		_ = printer.PrintResults(res)
+	})
+	verifCover("C18/shared/end")
+}
